@@ -237,9 +237,13 @@ fn typed<T: Pixel>(toks: &[&str], segs: &[&str]) -> Option<String> {
         }
         "enc" => {
             let cfg = cfg_of(toks[5].parse().ok()?, 0, 0, toks[4] == "1", mc_of(toks[2])?, TransferCharacteristic::BT1886, cp_of(toks[3])?);
-            let rgb = Rgb::new(vec![[px(toks[6])?, px(toks[7])?, px(toks[8])?]], 1, 1, TransferCharacteristic::BT1886, cp_of(toks[3])?).ok()?;
+            // optional suffix `S <w> <h> <idx>`: the same pixel everywhere in a w x h image, read back at index idx
+            let (w, h, idx): (usize, usize, usize) = if toks.len() == 13 && toks[9] == "S" { (toks[10].parse().ok()?, toks[11].parse().ok()?, toks[12].parse().ok()?) } else { (1, 1, 0) };
+            if w == 0 || h == 0 || idx >= w * h || w * h > (1 << 24) { return None; }
+            let rgb = Rgb::new(vec![[px(toks[6])?, px(toks[7])?, px(toks[8])?]; w * h], w, h, TransferCharacteristic::BT1886, cp_of(toks[3])?).ok()?;
             match Yuv::<T>::try_from((&rgb, cfg)) {
-                Ok(y) => format!("ok {} {} {}", origin_val(&y.data()[0]), origin_val(&y.data()[1]), origin_val(&y.data()[2])),
+                Ok(y) => { let g = |pi: usize| { let p = &y.data()[pi]; u16::cast_from(p.data_origin()[(idx / w) * p.cfg.stride + idx % w]) };
+                    format!("ok {} {} {}", g(0), g(1), g(2)) }
                 Err(e) => err_c(e),
             }
         }
